@@ -70,7 +70,7 @@ ASSUMPTIONS = ['names are ASCII identifiers (str.upper on ASCII); association ke
                'as list, tuple, zip, generator, iterator, map or dict items view in turn); likewise an attribute name of the '
                'form __x__ (reserved by python; names with underscores that are not of that form are generated and accepted)',
                'attribute names do not collide, in their DECLARED spelling, with Python-level attributes of xtuml.meta.Class (it has no '
-               'public ones); a fifth of the names are words a class could plausibly define (keys, items, get, name, query, '
+               'public ones); a fifth of the names are words a class could plausibly define (keys, items, get, name, kind, self, query, '
                '...) declared in another letter case and read in every case, lower case included',
                'loaded-from-text family: identifiers the text grammar cannot spell (R<digit>... lexes as a relation id, '
                'reserved words) are not generated; this family is checked by D alone (no model counterpart)']
@@ -166,7 +166,7 @@ RESERVED_NAMES = ['__class__', '__dict__', '__init__', '__x__', '__Name__', '___
 NEAR_RESERVED = ['____', '__a', 'a__', '_x_', '__ab_', '_ab__', '___']
 
 
-PLAUSIBLE = ['keys', 'items', 'values', 'get', 'update', 'copy', 'clear', 'pop', 'index', 'count', 'name', 'id', 'type',
+PLAUSIBLE = ['keys', 'items', 'values', 'get', 'update', 'copy', 'clear', 'pop', 'index', 'count', 'name', 'kind', 'self', 'id', 'type',
              'delete', 'new', 'clone', 'navigate', 'query', 'select_one', 'select_many', 'attributes', 'metaclass', 'links',
              'storage', 'relate', 'unrelate', 'setdefault', 'format', 'next', 'iter', 'len', 'str', 'repr', 'dict']
 
@@ -814,6 +814,14 @@ def run_impl(case):
                 except (x.MetaException, AttributeError) as e:
                     exc = e
                     res = _exc_name(e)
+                except TypeError as e:
+                    # a keyword that names an attribute must not collide with a parameter of the constructor (kind, self, ...)
+                    exc = e
+                    res = Sym('TypeError')
+                    fail('keyword-name-collides', 'new(%r, %r, %s) raised TypeError: %s' % (op[1], op[2], kwargs, e), n)
+                    obs.append(res)
+                    abort = True           # the instance numbering of the rest of the history no longer holds
+                    continue
                 if exc is None and K in orc.classes:
                     pool = m.select_many(orc.classes[K]['kind'])
                     if returned is None or not any(returned is o for o in pool) or \
